@@ -178,6 +178,9 @@ def generate(seed, tier):
         while r["aad"] is not None:                    # the tool has no option for associated data
             r = gen_envelope.gen_recipe(rng, "quick")
         cases.append({"id": f"cli-{i}", "fam": "cli", "recipe": r, "queries": []})
+        # the tool run without -o (in a directory that already holds a file called like the envelope without its suffix, and for
+        # an envelope without extension): nothing at all may be written
+        cases.append({"id": f"cli-noout-{i}", "fam": "cli", "recipe": r, "no_output": True, "envname": ["local.tgz.ve", "envelope"][i % 2], "queries": []})
     for i in range(24 * mult):
         r = gen_hyperv.gen_recipe(rng, "quick")
         cases.append({"id": f"hv-{i}", "fam": "hyperv", "recipe": r, "dirty": i % 2, "queries": []})
@@ -264,10 +267,16 @@ def impl_run(case, built):
             d = Path(tempfile.mkdtemp(prefix="hvc09."))
             argv = sys.argv
             try:
-                (d / "in.ve").write_bytes(b["envelope"])
+                envname = case.get("envname", "in.ve")
+                (d / envname).write_bytes(b["envelope"])
                 (d / "ks.info").write_bytes(b["keystore_text"].encode())
-                out_path = str(d / "out.bin")
-                sys.argv = ["envelope-decrypt", str(d / "in.ve"), "-ks", str(d / "ks.info"), "-o", out_path]
+                if case.get("no_output"):
+                    (d / "local.tgz").write_bytes(b"an older file next to the envelope")
+                    out_path = None
+                    sys.argv = ["envelope-decrypt", str(d / envname), "-ks", str(d / "ks.info")]
+                else:
+                    out_path = str(d / "out.bin")
+                    sys.argv = ["envelope-decrypt", str(d / envname), "-ks", str(d / "ks.info"), "-o", out_path]
                 before = {p.name: p.read_bytes() for p in d.iterdir()}
                 audit_start()
                 try:
